@@ -97,7 +97,12 @@ ProjEq(a, b) ==
 \* [accept : must the call return?, proj]
 ParseProblem_Exp(D, tree, dv) ==
   LET P == ProblemOfTree(tree)
-  IN  [accept |-> WFProblemD(D, P, dv), proj |-> ProblemProj(P)]
+  IN  [accept |-> WFProblemD(D, P, dv), proj |-> ProblemProj(P),
+       \* under "GoalFluentUnchecked" an accepted problem whose only defect is an
+       \* ill-formed goal fluent has no specified goal conditions
+       goalsFixed |-> WFProblemD(D, P, {}),
+       \* left open: a fluent assigned twice with different values
+       open |-> P.init.conflict]
 
 ----------------------------------------------------------------------------
 (* Type queries on a parsed domain (C06) *)
